@@ -1,7 +1,7 @@
 SPECIFICATION Spec
 CONSTANTS
   WL <- WL_diamond
-  Cfg <- Cfg_multi
+  Cfg <- Cfg_long
   MaxTick = 3
   MaxAsg = 1
   MaxOps = 3
